@@ -31,7 +31,7 @@ def gates(tier):
         "min_decided": {a: 300 * k for a in APIS},
         "shapes": {c: 5 * k for c in ["eps_rule", "nullable_cycle", "unary_cycle", "useless_symbol", "non_generating_symbol",
                                       "unreachable_symbol", "empty_language", "start_on_rhs", "long_body", "names:int0", "names:tuple0",
-                                      "has_unary_cycle:yes", "has_unary_cycle:no", "scale:big-grammar"]} | {"scale:deep-unary-chain": 1},
+                                      "has_unary_cycle:yes", "has_unary_cycle:no", "scale:big-grammar", "in_cnf:almost-cnf"]} | {"scale:deep-unary-chain": 1},
         "min_hashseeds": 2,
     }
 
